@@ -227,6 +227,9 @@ REWRITES = {
         "`v.into_iter().enumerate().map(f)` (followed by .collect()) is the function venum_map(v, f): f applied to (position, element) for every element in order, with the assumed std contract"),
     "tuple_param_indexed": (r"\|\((\w+), (\w+)\)\|", r"|iv__: (usize, JsonValue)|",
         "a closure parameter written as the tuple pattern `(i, v)` is the parameter iv__ destructured by `let (i, v) = iv__;` as the first statement of the body (injected line)"),
+    "split_map_collect": (r"\bstr\.split\(splitter\.as_str\(\)\)\s*\.map\(\|f\| JsonValue::String\(f\.to_string\(\)\)\)\s*\.collect::<Vec<_>>\(\)", r"vsplit::split_to_strings(&str, &splitter)",
+        "str.split(sep.as_str()).map(|f| JsonValue::String(f.to_string())).collect::<Vec<_>>() is the Vec of the JSON strings of the pieces str::split yields, in order (str::split itself: an uninterpreted function of text and separator)"),
+    "format_val": (r"format!\(\"\{val\}\"\)", r"vdisp::display_string(&val)", "format!(\"{val}\") is the String holding Display of the value (the one-line JSON text; uninterpreted here)"),
     "pub_crate": (r"\bpub\(crate\)\s+", r"pub ", "visibility is irrelevant in a single file"),
     "deref_clone": (
         r"(\w+)\.deref\(\)\.clone\(\)", r"vrc::deref_clone(&\1)", "Rc<T>::deref().clone() clones the pointee"),
